@@ -89,10 +89,13 @@ var hKinds = []string{
 	"send", "send", "delegate", "delegate", "delegate", "undelegate", "undelegate", "redelegate", "withdraw", "setwithdraw",
 	"gov-submit", "gov-deposit", "gov-vote", "vest-create", "vest-create", "vest-clawback", "lv-liquidate", "lv-redeem",
 	"dao-fund", "dao-transfer", "eth-send", "eth-create", "eth-call", "eth-call", "eth-delegate", "eth-withdraw", "eth-prog",
-	"bad-nonce", "low-fee", "unjail", "eth-fanout", "erc20-deploy", "erc20-mint", "erc20-transfer", "erc20-transfer", "erc20-convert",
+	"bad-nonce", "low-fee", "unjail", "send-module", "eth-fanout", "erc20-deploy", "erc20-mint", "erc20-transfer", "erc20-transfer", "erc20-convert",
 }
 
-var hGovKinds = []string{"register-erc20", "register-erc20", "toggle-pair", "precompile-off", "precompile-swap"}
+var hGovKinds = []string{"register-erc20", "register-erc20", "toggle-pair", "precompile-off", "precompile-swap", "erc20-switch"}
+
+// hModuleTargets: module accounts a user might (try to) send coins to.
+var hModuleTargets = []string{"distribution", "bonded_tokens_pool", "not_bonded_tokens_pool", "fee_collector", "gov", "erc20", "coinomics"}
 
 var hDts = []int64{1, 1, 2, 5, 5, 6, 30, 61, 61, 130, 3600, 86400, 400 * 86400}
 
@@ -163,6 +166,15 @@ func genHistory(t *rapid.T, minBlocks, maxBlocks int, kinds []string) History {
 		h.Blocks[i+1].Gov = append(h.Blocks[i+1].Gov, HTx{K: "precompile-off", N: 2})
 		h.Blocks[i+2].Gov = append(h.Blocks[i+2].Gov, HTx{K: "precompile-swap", N: rapid.IntRange(0, 4).Draw(t, "pc-swap")})
 		h.Blocks[i+3].Txs = append([]HTx{{K: "eth-delegate", A: a, V: 0, Amt: "1000", N: 1}, {K: "eth-withdraw", A: a, V: 0, N: 1}}, h.Blocks[i+3].Txs...)
+	}
+	if has("send-module") && nb >= 2 && rapid.IntRange(0, 3).Draw(t, "switch-scenario") == 0 {
+		// a module-wide switch is turned off by governance, then users try paths that consult it
+		i := rapid.IntRange(0, nb-2).Draw(t, "switch-at")
+		h.Blocks[i].Gov = append(h.Blocks[i].Gov, HTx{K: "erc20-switch"})
+		a := rapid.IntRange(0, hUsers-1).Draw(t, "switch-a")
+		for k := 0; k < 2; k++ {
+			h.Blocks[i+1].Txs = append(h.Blocks[i+1].Txs, HTx{K: "send-module", A: a, N: rapid.IntRange(0, 6).Draw(t, "switch-target"), Amt: "1000"})
+		}
 	}
 	if has("gov-vote") && nb >= 2 && rapid.IntRange(0, 1).Draw(t, "gov-scenario") == 0 {
 		i := rapid.IntRange(0, nb-2).Draw(t, "gov-at")
@@ -358,6 +370,8 @@ func (r *hRunner) buildTx(x HTx) []byte {
 	switch x.K {
 	case "send":
 		return cosmos(A, 200000, banktypes.NewMsgSend(A.Addr, B.Addr, sdk.NewCoins(coin)))
+	case "send-module":
+		return cosmos(A, 200000, banktypes.NewMsgSend(A.Addr, authtypes.NewModuleAddress(hModuleTargets[x.N%len(hModuleTargets)]), sdk.NewCoins(coin)))
 	case "delegate":
 		return cosmos(A, 400000, stakingtypes.NewMsgDelegate(A.Addr, valAddr, coin))
 	case "undelegate", "redelegate", "withdraw":
@@ -632,6 +646,8 @@ func (r *hRunner) resolveGov(x HTx) *GovOp {
 		if len(pairs) > 0 {
 			return &GovOp{K: "toggle-pair", Addr: pairs[x.N%len(pairs)].Erc20Address}
 		}
+	case "erc20-switch":
+		return &GovOp{K: "erc20-switch"}
 	case "precompile-off", "precompile-swap":
 		all := evmtypes.AvailableEVMExtensions
 		active := app.EvmKeeper.GetParams(ctx).ActivePrecompiles
@@ -687,6 +703,10 @@ func (r *hRunner) applyGov(g GovOp) {
 		_, err = app.Erc20Keeper.RegisterERC20(cctx, common.HexToAddress(g.Addr))
 	case "toggle-pair":
 		_, err = app.Erc20Keeper.ToggleConversion(cctx, g.Addr)
+	case "erc20-switch":
+		p := app.Erc20Keeper.GetParams(cctx)
+		p.EnableErc20 = !p.EnableErc20
+		err = app.Erc20Keeper.SetParams(cctx, p)
 	case "set-precompiles":
 		p := app.EvmKeeper.GetParams(cctx)
 		p.ActivePrecompiles = g.Active
